@@ -66,12 +66,9 @@ pub fn prepare(text: &str, label: &str, inputs: Rc<Vec<String>>, starts: Vec<Str
 /// Does the grammar fall under a syntactic exclusion of the model (M8, M11)?
 pub fn excluded(ast: &[Rule]) -> Option<&'static str> {
     for r in ast {
-        if (r.name == "WHITESPACE" || r.name == "COMMENT") && r.ty == pest_meta::ast::RuleType::NonAtomic {
-            return Some("M8: `!` WHITESPACE/COMMENT");
-        }
-        if crate::model::is_builtin(&r.name) || pest::unicode::by_name(&r.name).is_some() {
-            return Some("M11: user rule named like a built-in");
-        }
+        // (M8 `!` WHITESPACE/COMMENT and M11 user rules named like built-ins were excluded while the
+        // two back-ends disagreed on them; since fixes 2cb1646 / 48aaeb8 they are modelled)
+        let _ = r;
     }
     None
 }
@@ -186,6 +183,16 @@ pub fn standard(quick: bool, scale: i32) -> Vec<Slice> {
         name: "builtins".into(),
         frames: gram::frames(false, false).into_iter().filter(|f| f.sdef == 0 && f.ws <= 1 && (f.ty == 0 || f.ty == 2) && (f.ws == 0 || f.ty == 0)).collect(),
         bodies: Rc::new(gram::builtin_bodies()),
+        len: 3,
+        len4: 3,
+        extra_rules: "",
+    });
+    v.push(Slice {
+        whole_grammars: true,
+        extra_alpha: vec![' ', '\n', '1'],
+        name: "shadowed-builtins".into(),
+        frames: gram::frames(false, false).into_iter().filter(|f| f.sdef == 0 && f.ws == 0 && f.ty == 0).collect(),
+        bodies: Rc::new(gram::shadowed_builtin_grammars()),
         len: 3,
         len4: 3,
         extra_rules: "",
